@@ -389,6 +389,15 @@ func checkJsonSafe(p *Program, r *Report, enc *ssa.Function) {
 	}
 	n := 0
 	fns := append(p.PkgFuncs("io/json"), enc)
+	seenF := map[*ssa.Function]bool{enc: true}
+	for qi := len(fns) - 1; qi < len(fns); qi++ {
+		for _, c := range callsIn(fns[qi]) {
+			if f := c.Common().StaticCallee(); f != nil && InModule(f) && f.Blocks != nil && !seenF[f] && relPkg(fnPkg(f).Path()) == "sim" {
+				seenF[f] = true
+				fns = append(fns, f)
+			}
+		}
+	}
 	for _, fn := range fns {
 		k := 0
 		eachInstr(fn, func(_ *ssa.BasicBlock, _ int, ins ssa.Instruction) {
@@ -450,62 +459,95 @@ func checkJsonSafe(p *Program, r *Report, enc *ssa.Function) {
 		})
 	}
 	r.Floor("R17.4", "float→interface conversions", n, 1)
-	// elements of JsonSafeArray's result and values placed by encodeResults come from the safe functions
-	safeResult := func(v ssa.Value) bool {
+	// elements of JsonSafeArray's result and values placed in the result tree come from the safe functions,
+	// directly or through helper functions / maps whose every entry is safe
+	var safeTree func(v ssa.Value, depth int) string
+	safeTree = func(v ssa.Value, depth int) string {
+		if depth > 5 {
+			return "helper nesting too deep"
+		}
 		for _, o := range origins(v) {
 			if o == nil {
-				return false
+				continue
 			}
 			o = stripConv(o)
 			switch x := o.(type) {
+			case *ssa.Const:
+				if x.Value != nil {
+					return "a constant is placed in the result tree"
+				}
 			case *ssa.Call:
 				f := x.Common().StaticCallee()
-				if f != safeVal && f != safeArr {
-					return false
+				if f == safeVal || f == safeArr {
+					continue
+				}
+				if f == nil || !InModule(f) || f.Blocks == nil {
+					return "value produced by " + callName(x.Common())
+				}
+				for _, ret := range returnsOf(f) {
+					if w := safeTree(ret.Results[0], depth+1); w != "" {
+						return w
+					}
 				}
 			case *ssa.MakeMap:
-				// map built in encodeResults: its updates are checked separately
-			default:
-				return false
-			}
-		}
-		return true
-	}
-	for _, fn := range []*ssa.Function{safeArr, enc} {
-		eachInstr(fn, func(_ *ssa.BasicBlock, _ int, ins ssa.Instruction) {
-			switch x := ins.(type) {
-			case *ssa.Store:
-				ia, ok := x.Addr.(*ssa.IndexAddr)
-				if ok && fn == safeArr && types.IsInterface(x.Val.Type()) {
-					if addrIsLocalTemp(ia) {
-						return
-					}
-					if safeResult(x.Val) {
-						r.OK("R17.4", FuncKey(fn)+": array element produced by JsonSafeValue/JsonSafeArray")
-					} else {
-						r.Fail("R17.4", FuncKey(fn)+":element", p.Pos(x.Pos()), "an element of the JSON-safe array is not produced by JsonSafeValue/JsonSafeArray")
-					}
-				}
-				if fa, ok := x.Addr.(*ssa.FieldAddr); ok && fn == enc {
-					name, _, _ := fieldName(fa)
-					if name == "Outputs" || name == "States" {
-						if safeResult(x.Val) {
-							r.OK("R17.4", FuncKey(fn)+": RunResults."+name+" produced by the JSON-safe conversion")
-						} else {
-							r.Fail("R17.4", FuncKey(fn)+":"+name, p.Pos(x.Pos()), "RunResults."+name+" is not produced by the JSON-safe conversion")
+				for _, ref := range refs(x) {
+					if mu, ok := ref.(*ssa.MapUpdate); ok && mu.Map == ssa.Value(x) {
+						if w := safeTree(mu.Value, depth+1); w != "" {
+							return w
 						}
 					}
 				}
-			case *ssa.MapUpdate:
-				if fn == enc {
-					if safeResult(x.Value) {
-						r.OK("R17.4", FuncKey(fn)+": map entry produced by the JSON-safe conversion")
-					} else {
-						r.Fail("R17.4", FuncKey(fn)+":map-entry", p.Pos(x.Pos()), "a map entry of the result is not produced by the JSON-safe conversion")
+				for _, ref := range refsThroughConv(x) {
+					if mu, ok := ref.(*ssa.MapUpdate); ok {
+						if w := safeTree(mu.Value, depth+1); w != "" {
+							return w
+						}
 					}
 				}
+			default:
+				return "value of unrecognised origin " + o.String()
 			}
-		})
+		}
+		return ""
+	}
+	eachInstr(safeArr, func(_ *ssa.BasicBlock, _ int, ins ssa.Instruction) {
+		st, ok := ins.(*ssa.Store)
+		if !ok {
+			return
+		}
+		ia, ok := st.Addr.(*ssa.IndexAddr)
+		if !ok || !types.IsInterface(st.Val.Type()) || addrIsLocalTemp(ia) {
+			return
+		}
+		if w := safeTree(st.Val, 0); w == "" {
+			r.OK("R17.4", FuncKey(safeArr)+": array element produced by JsonSafeValue/JsonSafeArray")
+		} else {
+			r.Fail("R17.4", FuncKey(safeArr)+":element", p.Pos(st.Pos()), "an element of the JSON-safe array is not produced by JsonSafeValue/JsonSafeArray: "+w)
+		}
+	})
+	nFields := 0
+	eachInstr(enc, func(_ *ssa.BasicBlock, _ int, ins ssa.Instruction) {
+		st, ok := ins.(*ssa.Store)
+		if !ok {
+			return
+		}
+		fa, ok := st.Addr.(*ssa.FieldAddr)
+		if !ok {
+			return
+		}
+		name, _, _ := fieldName(fa)
+		if name != "Outputs" && name != "States" || !types.IsInterface(st.Val.Type()) {
+			return
+		}
+		nFields++
+		if w := safeTree(st.Val, 0); w == "" {
+			r.OK("R17.4", FuncKey(enc)+": RunResults."+name+" is built only from JsonSafeValue/JsonSafeArray results")
+		} else {
+			r.Fail("R17.4", FuncKey(enc)+":"+name, p.Pos(st.Pos()), "RunResults."+name+" is not produced by the JSON-safe conversion: "+w)
+		}
+	})
+	if nFields == 0 {
+		r.Undecided("R17.4", FuncKey(enc)+":fields", p.Pos(enc.Pos()), "no assignment of RunResults.Outputs/States found")
 	}
 }
 
